@@ -219,6 +219,11 @@ theorem step_inv (s : State) (op : List String) (h : Inv s) : ∀ o ∈ step s o
   · simp at ho; subst ho; exact inv_of_eq s _ h rfl rfl
   · simp at ho; subst ho; exact inv_of_eq s _ h rfl rfl
   · simp at ho; subst ho; exact inv_of_eq s _ h rfl rfl
+  · simp at ho; subst ho; exact h
+  · -- expire
+    split at ho
+    · simp at ho
+    · simp at ho; subst ho; exact inv_of_eq s _ h rfl rfl
   · simp at ho; subst ho; exact inv_of_eq s _ h rfl rfl
   · -- release ok
     split at ho
